@@ -30,6 +30,7 @@ Judge(e) ==
           /\ say(e.mtaper, "ToMillimetre-changes-taper-or-name")
           /\ say(e.idem, "ToMillimetre-not-idempotent")
           /\ say(e.pure, "ToMillimetre-modifies-the-database-entry")
+          /\ say(e.gpure, "generators-modify-the-database-entry")
           \* a designation outside the standards (judged by the designation alone) is reported, not rejected
           /\ (IF Std(v.fam, v.a, v.b) = "none" THEN PrintT(<<"DRIFT", l>>) ELSE TRUE))
 
